@@ -1,9 +1,11 @@
 package node
 
 import (
+	"bytes"
 	"github.com/canopy-network/canopy/fsm"
 	"github.com/canopy-network/canopy/lib"
 	"github.com/canopy-network/canopy/lib/crypto"
+	"google.golang.org/protobuf/encoding/protowire"
 )
 
 // Transaction builders. They mirror fsm.NewTransaction / fsm.New*Tx (same message construction,
@@ -107,6 +109,59 @@ func ReencodeRepeatedCreatedHeight(tx []byte, createdHeight uint64) []byte {
 		v >>= 7
 	}
 	return append(out, byte(v))
+}
+
+// ReencodePermuted re-encodes a marshalled transaction with the SAME content and the SAME length but
+// its top-level fields in another order (proto3 decoders accept fields in any order; the canonical
+// encoding writes them in field-number order). mode: "swap-last-two" exchanges the last two fields
+// (network_id and chain_id of an ordinary transaction), "reverse" writes all fields backwards,
+// "rotate" moves the first field to the end. Returns nil when the transaction has fewer than two fields.
+func ReencodePermuted(tx []byte, mode string) []byte {
+	var fields [][]byte
+	for rest := tx; len(rest) > 0; {
+		num, typ, n := protowire.ConsumeTag(rest)
+		if n < 0 {
+			panic("harness: cannot split the transaction bytes it built itself")
+		}
+		m := protowire.ConsumeFieldValue(num, typ, rest[n:])
+		if m < 0 {
+			panic("harness: cannot split the transaction bytes it built itself")
+		}
+		fields = append(fields, rest[:n+m])
+		rest = rest[n+m:]
+	}
+	if len(fields) < 2 {
+		return nil
+	}
+	switch mode {
+	case "swap-last-two":
+		k := len(fields)
+		fields[k-1], fields[k-2] = fields[k-2], fields[k-1]
+	case "reverse":
+		for i, j := 0, len(fields)-1; i < j; i, j = i+1, j-1 {
+			fields[i], fields[j] = fields[j], fields[i]
+		}
+	default: // rotate
+		fields = append(fields[1:], fields[0])
+	}
+	var out []byte
+	for _, f := range fields {
+		out = append(out, f...)
+	}
+	if len(out) != len(tx) || bytes.Equal(out, tx) {
+		return nil
+	}
+	return out
+}
+
+// IsCanonicalTx: the bytes are what marshalling the decoded transaction gives.
+func IsCanonicalTx(raw []byte) bool {
+	tx := new(lib.Transaction)
+	if err := lib.Unmarshal(raw, tx); err != nil {
+		return false
+	}
+	bz, err := lib.Marshal(tx)
+	return err == nil && bytes.Equal(bz, raw)
 }
 
 // CertificateResultsTx builds the transaction with which a nested chain reports a certificate to the
